@@ -142,7 +142,11 @@ Evaluations(e) ==
       [] e.ev = "Law" ->
            LET x == LawVal(e.x)  y == LawVal(e.y) IN
           (CASE e.k = "comm" /\ ~e.vm ->
-                  {Ev("C06_MergeCommutes", R!C06_MergeCommutes(x, y), x.ok /\ y.ok /\ x.ops.ops # {}, NoFacts)}
+                  {Ev("C06_MergeCommutes", R!C06_MergeCommutes(x, y), x.ok /\ y.ok /\ x.ops.ops # {}, NoFacts),
+                   \* the CRDT replicas merged either way round, and the CRDT of the merged operation set, present
+                   \* the same current values (RegisterCrdt::merge)
+                   Ev("C06_MergeCommutes", (e.crdt.done /\ x.ok /\ y.ok) => (e.crdt.ab = e.crdt.ba /\ e.crdt.ab.read = e.crdt.u.read /\ e.crdt.ab.nfr = e.crdt.u.nfr),
+                      e.crdt.done /\ x.ok /\ y.ok, NoFacts)}
              [] e.k = "comm" /\ e.vm ->   \* verified merges: whether each is accepted is C06_Closure's business
                   {Ev("C06_MergeCommutes", R!C06_MergeAssoc(x, y), x.ok /\ y.ok /\ x.ops.ops # {}, NoFacts)}
              [] e.k = "assoc" ->
